@@ -21,7 +21,7 @@ import (
 var kfTags = []string{
 	"f:var-in-directive", "f:explicit-id-with-fragment", "f:explicit-typename-with-fragment", "f:node-root",
 	"f:fragment-on-abstract", "f:fragment-with-directive", "f:var-default-unsupplied", "f:interface-level-field",
-	"f:member-fragment", "f:composite-key-reused", "f:root-typename", "f:introspection", "f:var-named-id", "f:dup-response-key",
+	"f:member-fragment", "f:composite-key-reused", "f:root-typename", "f:introspection", "f:var-named-id", "f:dup-response-key", "f:alias-id-on-other-field",
 }
 
 func coreOpProfile() gen.OpProfile {
